@@ -259,6 +259,50 @@ func (c *FnCtx) assignTarget(e *Expr, env *Env) []target {
 	return nil
 }
 
+// argTargets: the memory directly pointed to by the call's arguments (shallow): fields of a struct
+// passed by pointer (also when boxed in an interface in this function), elements of a slice, the
+// cell of a pointer to a basic value.
+func (c *FnCtx) argTargets(ci *calleeInfo) []target {
+	var ts []target
+	for _, a := range ci.args {
+		v := a
+		if mi, ok := a.(*ssa.MakeInterface); ok {
+			v = mi.X
+		}
+		if _, isLoc := c.locs[v]; isLoc {
+			continue // handled by copy-in/copy-out
+		}
+		switch u := v.Type().Underlying().(type) {
+		case *types.Pointer:
+			ref := c.v(v)
+			if isStruct(u.Elem()) {
+				out := map[string]bool{}
+				c.objectCompsRef(u.Elem(), ref, &ts)
+				_ = out
+			} else if arr, ok := u.Elem().Underlying().(*types.Array); ok {
+				ts = append(ts, target{c.elemComp(arr.Elem()), ref})
+			} else {
+				ts = append(ts, target{c.cellComp(u.Elem()), ref})
+			}
+		case *types.Slice:
+			ts = append(ts, target{c.elemComp(u.Elem()), app("s-ref", c.v(v))})
+		}
+	}
+	return ts
+}
+
+func (c *FnCtx) objectCompsRef(t types.Type, ref Term, out *[]target) {
+	s := t.Underlying().(*types.Struct)
+	for i := 0; i < s.NumFields(); i++ {
+		ft := s.Field(i).Type()
+		if isStruct(ft) {
+			c.objectCompsRef(ft, app("sub", ref, num(int64(i))), out)
+		} else {
+			*out = append(*out, target{c.fieldComp(t, i), ref})
+		}
+	}
+}
+
 func (c *FnCtx) havocTargets(ts []target) {
 	done := map[string]bool{}
 	for _, t := range ts {
@@ -320,33 +364,74 @@ func (c *FnCtx) callMods(cc *ssa.CallCommon, out map[string]bool) bool {
 		if ci.external && c.g.specs.PurePkgs[ci.pkgName] {
 			return false
 		}
+		if !ci.external && c.g.pure[ci.name] {
+			return false
+		}
 		return true
 	}
 	if !spec.HasAssigns || spec.AssignsAll {
 		return true
 	}
+	if spec.ArgsOnly {
+		for _, a := range ci.args {
+			v := a
+			if mi, ok := a.(*ssa.MakeInterface); ok {
+				v = mi.X
+			}
+			switch u := v.Type().Underlying().(type) {
+			case *types.Pointer:
+				if isStruct(u.Elem()) {
+					c.objectComps(u.Elem(), out)
+				} else if arr, ok := u.Elem().Underlying().(*types.Array); ok {
+					out[c.elemComp(arr.Elem())] = true
+				} else {
+					out[c.cellComp(u.Elem())] = true
+				}
+			case *types.Slice:
+				out[c.elemComp(u.Elem())] = true
+			}
+		}
+	}
 	// dry translation of the assigns clause
 	env := &Env{vars: map[string]TV{}, st: &State{m: map[string]Term{}, havoc: true}}
 	dummy := make([]Term, len(ci.args))
 	for i := range dummy {
-		dummy[i] = "0"
+		dummy[i] = fmt.Sprintf("ARG$%d", i)
 	}
-	saveDecl, saveDecls, saveFresh := c.declared, c.decls, c.fresh
-	nd := map[string]bool{}
-	for k, v := range c.declared {
-		nd[k] = v
-	}
-	c.declared = nd
-	env2 := c.calleeEnv(ci, dummy, nil, env.st, nil)
-	ts, err := c.assignTargets(spec, env2)
-	c.declared, c.decls, c.fresh = saveDecl, saveDecls, saveFresh
+	var ts []target
+	var err error
+	c.dryRun(func() {
+		env2 := c.calleeEnv(ci, dummy, nil, env.st, nil)
+		ts, err = c.assignTargets(spec, env2)
+	})
 	if err != nil {
 		return true
 	}
 	for _, t := range ts {
 		out[t.comp] = true
+		if c.modDetail != nil {
+			idx := -1
+			for i := range dummy {
+				if t.ref == dummy[i] {
+					idx = i
+				}
+			}
+			var base ssa.Value
+			if idx >= 0 {
+				base = ci.args[idx]
+			}
+			*c.modDetail = append(*c.modDetail, modTarget{t.comp, base, t.ref == ""})
+		}
 	}
 	return false
+}
+
+// modTarget: one assigns target of a call inside a loop; base != nil when the target is a field of
+// (or the elements of) one of the call's arguments.
+type modTarget struct {
+	comp  string
+	base  ssa.Value
+	whole bool
 }
 
 func (c *FnCtx) isAtomicOrSync(ci *calleeInfo) bool {
@@ -431,6 +516,28 @@ func (c *FnCtx) call(ins ssa.Instruction, cc *ssa.CallCommon, val ssa.Value) {
 			}
 		}
 	}
+	if c.spec != nil {
+		for k, h := range c.spec.Hints[ci.name] {
+			// a fact the contract asks to be established here (proved, then available as a lemma)
+			env := c.fnEnv(c.st, c.entry, false)
+			ce := c.calleeEnv(ci, args, nil, c.st, c.entry)
+			for n, tv := range ce.vars {
+				// p0.. / recv denote the callee's arguments inside a hint
+				_, clash := env.vars[n]
+				if !clash || n == "recv" || (len(n) >= 2 && n[0] == 'p' && n[1] >= '0' && n[1] <= '9') {
+					env.vars[n] = tv
+				}
+			}
+			txt := c.g.exprTextAt(pos, "call")
+			if len(txt) > 40 {
+				txt = txt[:40]
+			}
+			o := c.oblig(fmt.Sprintf("%s/hint:%s#%d:%s", c.name, ci.name, k+1, txt), "hint", c.g.posStr(pos), false)
+			o.Desc = h.Text
+			o.Tags = h.Tags
+			c.assertG(o, c.mustClause(h, env), c.mustGoal(h, env))
+		}
+	}
 	rtypes := c.resultTypes(ci.sig)
 	var results []Term
 	for i, rt := range rtypes {
@@ -446,6 +553,9 @@ func (c *FnCtx) call(ins ssa.Instruction, cc *ssa.CallCommon, val ssa.Value) {
 		c.atomicCall(ci, args, locs, results)
 	case spec != nil:
 		c.applySpec(spec, ci, args, results, pos)
+	case !ci.external && c.g.pure[ci.name]:
+		// inferred effect-free (purity.go): nothing the caller can see changes
+		c.inferredPure[ci.name] = true
 	default:
 		c.uncontr[ci.name] = true
 		if ci.external && c.g.specs.PurePkgs[ci.pkgName] {
@@ -515,9 +625,10 @@ func (c *FnCtx) applySpec(spec *FuncSpec, ci *calleeInfo, args []Term, results [
 			continue // logical-variable clause: not checkable at call sites
 		}
 		kind := "pre"
-		safety := spec.Trusted
+		safety := spec.Panics
 		o := c.oblig(fmt.Sprintf("%s/call:%s/pre#%d", c.name, spec.Name, k+1), kind, c.g.posStr(pos), safety)
 		o.Desc = r.Text
+		o.Tags = r.Tags
 		c.assertG(o, c.mustClause(r, envPre), c.mustGoal(r, envPre))
 	}
 	// frame
@@ -531,6 +642,9 @@ func (c *FnCtx) applySpec(spec *FuncSpec, ci *calleeInfo, args []Term, results [
 		ts, err := c.assignTargets(spec, envPre)
 		if err != nil {
 			panic(unsupported(err.Error()))
+		}
+		if spec.ArgsOnly {
+			ts = append(ts, c.argTargets(ci)...)
 		}
 		c.havocTargets(ts)
 		// allocation may have happened
@@ -838,15 +952,12 @@ func (c *FnCtx) chanMods(ch ssa.Value, out map[string]bool) {
 		if spec == nil {
 			continue
 		}
-		saveDecl, saveDecls, saveFresh := c.declared, c.decls, c.fresh
-		nd := map[string]bool{}
-		for k, v := range c.declared {
-			nd[k] = v
-		}
-		c.declared = nd
-		env := &Env{vars: map[string]TV{"recv": {T: "0", Ty: types.NewPointer(st)}}, st: &State{m: map[string]Term{}, havoc: true}}
-		ts, err := c.assignTargets(spec, env)
-		c.declared, c.decls, c.fresh = saveDecl, saveDecls, saveFresh
+		var ts []target
+		var err error
+		c.dryRun(func() {
+			env := &Env{vars: map[string]TV{"recv": {T: "0", Ty: types.NewPointer(st)}}, st: &State{m: map[string]Term{}, havoc: true}}
+			ts, err = c.assignTargets(spec, env)
+		})
 		if err == nil {
 			for _, t := range ts {
 				out[t.comp] = true
@@ -986,4 +1097,33 @@ func (c *FnCtx) selectStmt(x *ssa.Select) {
 			c.assume(implies(eq(idx, num(int64(r.i))), c.mustClause(e, envPost)))
 		}
 	}
+}
+
+// dryRun evaluates f (a spec translation used only for its static result) and rolls back every
+// side effect on the query under construction.
+func (c *FnCtx) dryRun(f func()) {
+	copyB := func(m map[string]bool) map[string]bool {
+		n := map[string]bool{}
+		for k, v := range m {
+			n[k] = v
+		}
+		return n
+	}
+	declared, decls, fresh, axioms := c.declared, c.decls, c.fresh, len(c.axioms)
+	wf, box, pure := c.specWFDone, c.boxDecl, c.pureDecl
+	lits := c.strLits
+	nl := map[string]Term{}
+	for k, v := range lits {
+		nl[k] = v
+	}
+	c.declared, c.specWFDone, c.boxDecl, c.pureDecl, c.strLits = copyB(declared), copyB(wf), copyB(box), copyB(pure), nl
+	ttDecls, ttKnown := len(c.tt.decls), copyB(c.tt.known)
+	defer func() {
+		c.declared, c.decls, c.fresh = declared, decls, fresh
+		c.axioms = c.axioms[:axioms]
+		c.specWFDone, c.boxDecl, c.pureDecl, c.strLits = wf, box, pure, lits
+		_ = ttDecls
+		_ = ttKnown
+	}()
+	f()
 }
